@@ -35,75 +35,83 @@ func ManyFilesPair(n int, layout string) (old, nw *Schema, expects []Expect) {
 		if layout == "shared" {
 			grp = fmt.Sprintf("g%03d", i/3)
 		}
-		path := fmt.Sprintf("big/%s/f%s.proto", grp, tag)
-		pkg := "big." + grp + ".v1"
-		mk := func() *File {
-			e := "E" + tag
-			up := strings.ToUpper(e)
-			m := "M" + tag
-			return &File{
-				Path: path, Syntax: "proto3", Package: pkg,
-				Opts: []Opt{{"go_package", `"example.com/big/` + grp + `;` + grp + `"`}},
-				Enums: []*Enum{{Name: e, Values: []*EnumValue{
-					{up + "_UNSPECIFIED", 0}, {up + "_ONE", 1}, {up + "_TWO", 2}}}},
-				Messages: []*Message{
-					{Name: m, Fields: []*Field{
-						{Name: "a", Num: 1, Type: "int32", Kind: "int32"},
-						{Name: "b", Num: 2, Type: "string", Kind: "string"},
-						{Name: "e", Num: 3, Type: e, Kind: "enum"},
-					}},
-					{Name: "Spare" + tag, Fields: []*Field{{Name: "id", Num: 1, Type: "int32", Kind: "int32"}}},
-				},
-				Services: []*Service{{Name: "S" + tag, Methods: []*Method{
-					{Name: "Get", In: m, Out: m}, {Name: "Put", In: m, Out: m}}}},
-			}
-		}
-		of, nf := mk(), mk()
-		m := nf.Messages[0]
-		names := func(f *Field) []string { return []string{itoa(f.Num), f.Name, m.Name} }
-		switch i % manyFilesEditKinds {
-		case 0: // field type across every compatibility group
-			f := m.Field(1)
-			f.Type, f.Kind = "string", "string"
-			for _, rule := range []string{"FIELD_SAME_TYPE", "FIELD_WIRE_COMPATIBLE_TYPE", "FIELD_WIRE_JSON_COMPATIBLE_TYPE"} {
-				expects = append(expects, Expect{Rule: rule, Names: names(f), File: path, LocKey: KeyField(m.Name, 1)})
-			}
-		case 1: // field deleted, nothing reserved
-			f := m.Field(2)
-			nm := names(f)
-			m.DeleteField(2)
-			for _, rule := range []string{"FIELD_NO_DELETE", "FIELD_NO_DELETE_UNLESS_NUMBER_RESERVED", "FIELD_NO_DELETE_UNLESS_NAME_RESERVED"} {
-				expects = append(expects, Expect{Rule: rule, Names: nm, File: path, LocKey: KeyMsg(m.Name)})
-			}
-		case 2: // enum value deleted, nothing reserved
-			e := nf.Enums[0]
-			v := e.Values[2]
-			e.DeleteValue(v.Name)
-			nm := []string{itoa(v.Num), e.Name}
-			expects = append(expects,
-				Expect{Rule: "ENUM_VALUE_NO_DELETE", Names: nm, File: path, LocKey: KeyEnum(e.Name)},
-				Expect{Rule: "ENUM_VALUE_NO_DELETE_UNLESS_NUMBER_RESERVED", Names: nm, File: path, LocKey: KeyEnum(e.Name)},
-				Expect{Rule: "ENUM_VALUE_NO_DELETE_UNLESS_NAME_RESERVED", Names: append([]string{v.Name}, nm...), File: path, LocKey: KeyEnum(e.Name)})
-		case 3: // message deleted (the package keeps its other messages)
-			nf.DeleteMessage("Spare" + tag)
-			expects = append(expects,
-				Expect{Rule: "MESSAGE_NO_DELETE", Names: []string{"Spare" + tag}, File: path},
-				Expect{Rule: "PACKAGE_MESSAGE_NO_DELETE", Names: []string{"Spare" + tag, pkg}, File: path})
-		case 4: // RPC deleted
-			s := nf.Services[0]
-			s.Methods = s.Methods[:1]
-			expects = append(expects, Expect{Rule: "RPC_NO_DELETE", Names: []string{"Put", s.Name}, File: path, LocKey: KeyService(s.Name)})
-		case 5: // tracked file option changed
-			nf.Opts = setOpt(nf.Opts, "go_package", `"example.com/elsewhere/`+grp+`;`+grp+`"`)
-			expects = append(expects, Expect{Rule: "FILE_SAME_GO_PACKAGE", Names: []string{"go_package"}, File: path, LocKey: KeyFileOpt("go_package")})
-		}
-		// unrelated compatible changes in every file: a new message first, a new field last
-		nf.Messages = append([]*Message{{Name: "Added" + tag, Fields: []*Field{{Name: "id", Num: 1, Type: "int32", Kind: "int32"}}}}, nf.Messages...)
-		m.Fields = append(m.Fields, &Field{Name: "added", Num: 9, Type: "string", Kind: "string"})
+		of, nf, ex := SmallFilePair(i, fmt.Sprintf("big/%s/f%s.proto", grp, tag), "big."+grp+".v1", grp)
 		old.Files = append(old.Files, of)
 		nw.Files = append(nw.Files, nf)
+		expects = append(expects, ex...)
 	}
 	return old, nw, expects
+}
+
+// SmallFilePair builds the old and the new version of one small proto3 file (one enum, two messages, one
+// service; all type names carry the index) with edit kind i mod 6 plus unrelated additions, and the expected
+// annotations. grp only feeds the go_package option.
+func SmallFilePair(i int, path, pkg, grp string) (of, nf *File, expects []Expect) {
+	tag := fmt.Sprintf("%03d", i)
+	mk := func() *File {
+		e := "E" + tag
+		up := strings.ToUpper(e)
+		m := "M" + tag
+		return &File{
+			Path: path, Syntax: "proto3", Package: pkg,
+			Opts: []Opt{{"go_package", `"example.com/big/` + grp + `;` + grp + `"`}},
+			Enums: []*Enum{{Name: e, Values: []*EnumValue{
+				{up + "_UNSPECIFIED", 0}, {up + "_ONE", 1}, {up + "_TWO", 2}}}},
+			Messages: []*Message{
+				{Name: m, Fields: []*Field{
+					{Name: "a", Num: 1, Type: "int32", Kind: "int32"},
+					{Name: "b", Num: 2, Type: "string", Kind: "string"},
+					{Name: "e", Num: 3, Type: e, Kind: "enum"},
+				}},
+				{Name: "Spare" + tag, Fields: []*Field{{Name: "id", Num: 1, Type: "int32", Kind: "int32"}}},
+			},
+			Services: []*Service{{Name: "S" + tag, Methods: []*Method{
+				{Name: "Get", In: m, Out: m}, {Name: "Put", In: m, Out: m}}}},
+		}
+	}
+	of, nf = mk(), mk()
+	m := nf.Messages[0]
+	names := func(f *Field) []string { return []string{itoa(f.Num), f.Name, m.Name} }
+	switch i % manyFilesEditKinds {
+	case 0: // field type across every compatibility group
+		f := m.Field(1)
+		f.Type, f.Kind = "string", "string"
+		for _, rule := range []string{"FIELD_SAME_TYPE", "FIELD_WIRE_COMPATIBLE_TYPE", "FIELD_WIRE_JSON_COMPATIBLE_TYPE"} {
+			expects = append(expects, Expect{Rule: rule, Names: names(f), File: path, LocKey: KeyField(m.Name, 1)})
+		}
+	case 1: // field deleted, nothing reserved
+		f := m.Field(2)
+		nm := names(f)
+		m.DeleteField(2)
+		for _, rule := range []string{"FIELD_NO_DELETE", "FIELD_NO_DELETE_UNLESS_NUMBER_RESERVED", "FIELD_NO_DELETE_UNLESS_NAME_RESERVED"} {
+			expects = append(expects, Expect{Rule: rule, Names: nm, File: path, LocKey: KeyMsg(m.Name)})
+		}
+	case 2: // enum value deleted, nothing reserved
+		e := nf.Enums[0]
+		v := e.Values[2]
+		e.DeleteValue(v.Name)
+		nm := []string{itoa(v.Num), e.Name}
+		expects = append(expects,
+			Expect{Rule: "ENUM_VALUE_NO_DELETE", Names: nm, File: path, LocKey: KeyEnum(e.Name)},
+			Expect{Rule: "ENUM_VALUE_NO_DELETE_UNLESS_NUMBER_RESERVED", Names: nm, File: path, LocKey: KeyEnum(e.Name)},
+			Expect{Rule: "ENUM_VALUE_NO_DELETE_UNLESS_NAME_RESERVED", Names: append([]string{v.Name}, nm...), File: path, LocKey: KeyEnum(e.Name)})
+	case 3: // message deleted (the package keeps its other messages)
+		nf.DeleteMessage("Spare" + tag)
+		expects = append(expects,
+			Expect{Rule: "MESSAGE_NO_DELETE", Names: []string{"Spare" + tag}, File: path},
+			Expect{Rule: "PACKAGE_MESSAGE_NO_DELETE", Names: []string{"Spare" + tag, pkg}, File: path})
+	case 4: // RPC deleted
+		s := nf.Services[0]
+		s.Methods = s.Methods[:1]
+		expects = append(expects, Expect{Rule: "RPC_NO_DELETE", Names: []string{"Put", s.Name}, File: path, LocKey: KeyService(s.Name)})
+	case 5: // tracked file option changed
+		nf.Opts = setOpt(nf.Opts, "go_package", `"example.com/elsewhere/`+grp+`;`+grp+`"`)
+		expects = append(expects, Expect{Rule: "FILE_SAME_GO_PACKAGE", Names: []string{"go_package"}, File: path, LocKey: KeyFileOpt("go_package")})
+	}
+	// unrelated compatible changes in every file: a new message first, a new field last
+	nf.Messages = append([]*Message{{Name: "Added" + tag, Fields: []*Field{{Name: "id", Num: 1, Type: "int32", Kind: "int32"}}}}, nf.Messages...)
+	m.Fields = append(m.Fields, &Field{Name: "added", Num: 9, Type: "string", Kind: "string"})
+	return of, nf, expects
 }
 
 type manyFilesCase struct {
